@@ -38,4 +38,22 @@ chk("C03", "gbv/streamfsm",
     "with C02-R3/C04-R3 (only commit and rotate write the cell).",
     "DESIGN.md 5/C03")
 
+chk("C16", "gbv/streamfsm+wirefmt",
+    "receiver provenance in the parser; SCCP specialisation of StripChecksum over all 256 algorithm values; affine offset-term extraction of header/body reads compared with the documented event layouts",
+    "Decides: every body parser runs on the checksum-stripped event with the current format; StripChecksum is identity for OFF/UNDEF, a capacity-preserving re-slice "
+    "dropping exactly 4 bytes for CRC32 and an error otherwise (all 256 values); the six header accessors read exactly the v4 header ranges, little-endian, and agree with "
+    "the package's writer; the fixed-offset reads (with destinations) of Format, Rotate, Query, IntVar, Rand and both GTID parsers equal the documented layouts; the "
+    "status-variable scanner advances by the documented size per code. It decides which bytes reach which result, not the arithmetic performed on them.",
+    "the MySQL internals documentation of event layouts, encoded as the spec table in rules_c16.go; encoding/binary semantics.",
+    "DESIGN.md 5/C16")
+
+chk("C17", "gbv/wirefmt+streamfsm",
+    "SCCP over IsValid's comparison regions (exhaustive for its constants); constant-bound check of header accessors; dominance of every event method call by the gate",
+    "Decides: IsValid's verdict equals (len>=19 && lengthField==len) on every order region its comparisons can distinguish and touches the buffer only when len>=19; "
+    "all index/slice bounds of header accessors are constants within the guaranteed header (also after checksum stripping); every method invoked on a received event in the "
+    "parser is dominated by the accepting edge; the rejecting edge returns a non-nil error and the position cell with no state effect. Body parsers on gate-accepted but "
+    "malformed bodies are outside the statement and not decided.",
+    "buffers shorter than 2^31 bytes.",
+    "DESIGN.md 5/C17")
+
 ENGINES[0]["serves_properties"] = sorted(CHECKS.keys())
